@@ -71,6 +71,29 @@ pub fn scenario(prop: &str) -> Scenario {
             s.min_machines = 1;
             s.max_machines = 3;
         }
+        "C07" => {
+            s.mp.act_none = 1;
+            s.mp.act_cancel = 1;
+            s.mp.act_pad = 4;
+            s.mp.act_block = 4;
+            s.mp.act_timer = 4;
+            s.mp.limits = 90;
+            s.mp.counters = 25;
+            s.mp.signals = 5;
+            s.mp.ends = 5;
+            s.mp.trans_density = 65;
+            s.mp.max_states = 3;
+            s.mp.prob = ProbMode::Dyadic;
+            s.mp.budgets = false;
+            s.mp.fracs = false;
+            s.hp.min_events = 1;
+            s.hp.max_events = 2;
+            s.hp.max_calls = 12;
+            s.hp.weights = [1, 1, 1, 2, 6, 1, 5, 2, 5, 1];
+            s.min_machines = 1;
+            s.max_machines = 3;
+            s.fw_fracs = false;
+        }
         "C09" => {
             s.mp.signals = 70;
             s.mp.ends = 8;
@@ -142,6 +165,7 @@ pub fn monitor(prop: &str, c: &FwCase, run: &FwRun) -> Option<String> {
         "C02" => mon_c02(c, run),
         "C03" => mon_c03(c, run),
         "C09" => mon_c09(c, run),
+        "C07" => mon_c07(c, run),
         _ => None,
     }
 }
@@ -177,6 +201,7 @@ pub fn nontrivial(prop: &str, c: &FwCase, run: &FwRun) -> bool {
             run.calls.iter().any(|c| c.actions.iter().any(|a| matches!(a, TriggerAction::SendPadding { .. })))
                 && c.machines.iter().any(|m| m.max_padding_frac > 0.0 || m.allowed_padding_packets > 0) 
         }
+        "C07" => run.calls.iter().any(|c| c.log.iter().any(|e| e.0 == maybenot::verif::LOG_DEC)),
         "C09" => run.calls.iter().any(|c| c.log.iter().any(|e| e.0 == maybenot::verif::LOG_SIGSET)),
         "C03" => run
             .calls
@@ -496,6 +521,80 @@ fn mon_c09(c: &FwCase, run: &FwRun) -> Option<String> {
             return Some(format!("call {}: a pending signal survives the call", j));
         }
         prev_ended = ended_now;
+    }
+    None
+}
+
+fn limited_kind(a: &Option<Action>) -> bool {
+    matches!(a, Some(Action::SendPadding { .. }) | Some(Action::BlockOutgoing { .. }) | Some(Action::UpdateTimer { .. }))
+}
+fn has_limit(a: &Option<Action>) -> bool {
+    matches!(a, Some(Action::SendPadding { limit: Some(_), .. }) | Some(Action::BlockOutgoing { limit: Some(_), .. }) | Some(Action::UpdateTimer { limit: Some(_), .. }))
+}
+
+/// C07: stay-tracking over snapshots and the internal log
+fn mon_c07(c: &FwCase, run: &FwRun) -> Option<String> {
+    use maybenot::verif::{LOG_CHANGE, LOG_DEC, LOG_LIMIT};
+    let n = c.machines.len();
+    let mut prev = run.new_snap.clone()?;
+    for (j, rec) in run.calls.iter().enumerate() {
+        let evs = &c.calls[j].1;
+        for i in 0..n {
+            let before = &prev.machines[i];
+            let after = &rec.snap.machines[i];
+            let changed = rec.log.iter().any(|e| e.0 == LOG_CHANGE && e.1 == i as u64);
+            let decs = rec.log.iter().filter(|e| e.0 == LOG_DEC && e.1 == i as u64).count() as u64;
+            let completions = evs
+                .iter()
+                .filter(|e| match e {
+                    maybenot::TriggerEvent::PaddingSent { machine }
+                    | maybenot::TriggerEvent::BlockingBegin { machine }
+                    | maybenot::TriggerEvent::TimerBegin { machine } => machine.into_raw() == i,
+                    _ => false,
+                })
+                .count() as u64;
+            if decs > completions {
+                return Some(format!("call {}: machine {}'s limit was decremented {} times for {} completions naming it", j, i, decs, completions));
+            }
+            if !changed {
+                if !(after.current_state == before.current_state || after.current_state == STATE_END) {
+                    return Some(format!("call {}: machine {} changed state without a state-change record", j, i));
+                }
+                if after.state_limit != before.state_limit.saturating_sub(decs) {
+                    return Some(format!(
+                        "call {}: machine {} stayed in state {} but its limit went from {} to {} with {} completion(s) (self-transitions must not refresh, others must not consume)",
+                        j, i, before.current_state, before.state_limit, after.state_limit, decs
+                    ));
+                }
+                if before.current_state != STATE_END {
+                    let st = &c.machines[i].states[before.current_state];
+                    // a limit of zero yields no limited action from this state
+                    if before.state_limit == 0 && limited_kind(&st.action) {
+                        let acted = rec.actions.iter().any(|a| {
+                            let (m, lim) = match a {
+                                TriggerAction::SendPadding { machine, .. } => (machine.into_raw(), true),
+                                TriggerAction::BlockOutgoing { machine, .. } => (machine.into_raw(), true),
+                                TriggerAction::UpdateTimer { machine, .. } => (machine.into_raw(), true),
+                                TriggerAction::Cancel { machine, .. } => (machine.into_raw(), false),
+                            };
+                            m == i && lim
+                        });
+                        if acted {
+                            return Some(format!("call {}: machine {} returned a limited action from state {} with remaining limit 0", j, i, before.current_state));
+                        }
+                    }
+                    // reaching 0 with a limit on the action raises LimitReached at once
+                    if decs == 1 && before.state_limit == 1 && has_limit(&st.action) {
+                        let pos = rec.log.iter().position(|e| e.0 == LOG_DEC && e.1 == i as u64).unwrap();
+                        let next = rec.log.get(pos + 1);
+                        if !matches!(next, Some(e) if e.0 == LOG_LIMIT && e.1 == i as u64) {
+                            return Some(format!("call {}: machine {}'s limit reached 0 but LimitReached was not raised immediately", j, i));
+                        }
+                    }
+                }
+            }
+        }
+        prev = rec.snap.clone();
     }
     None
 }
